@@ -98,16 +98,38 @@ func faults(w *rec.Writer, seed uint64) {
 			target.OnDup, target.OnMiss = sg.OptIgnore, sg.OptIgnore
 		}
 		if round == 0 {
-			for k := 1; k <= 12; k++ {
+			last := func() sg.Obs { return rn.Res.Sql[len(rn.Res.Sql)-1] }
+			attempt := func(k, flav int, bad bool) sg.Obs {
 				op := target
-				// database/sql retries a BEGIN that fails with ErrBadConn on a fresh connection, so that
-				// flavour is only injected inside the transaction
-				op.Fault, op.BadConn = k, k > 1 && r.Chance(1, 3)
+				op.Fault, op.BadConn, op.Flav = k, bad, flav
 				tick++
 				op.Tick = tick
 				rn.Do(op, false)
-				if rn.Res.Sql[len(rn.Res.Sql)-1].Err != sg.EInjected {
+				w.Stat(fmt.Sprintf("fault_flavour_%d", flav), 1)
+				return last()
+			}
+			for k := 1; k <= 14; k++ {
+				// database/sql retries a BEGIN that fails with ErrBadConn on a fresh connection, so that
+				// flavour is only injected inside the transaction
+				o := attempt(k, sg.FlavPlain, k > 1 && r.Chance(1, 3))
+				if o.Err != sg.EInjected {
 					break
+				}
+				if len(o.Trace) != k {
+					continue
+				}
+				atCommit := o.Trace[k-1] == "commit"
+				if atCommit {
+					// COMMIT fails with SQLITE_BUSY: busyRetry tries again on a finished transaction
+					attempt(k, sg.FlavBusy, false)
+				}
+				if prev := ""; k >= 2 {
+					prev = o.Trace[k-2]
+					// the request context ends after statement k-1 (a DELETE / INSERT: the SELECT runs on a
+					// context that ignores cancellation): database/sql rolls back on its own
+					if (prev == "delete" || prev == "insert" || prev == "changelog") && (atCommit || r.Chance(1, 2)) {
+						attempt(k, sg.FlavCancel, false)
+					}
 				}
 			}
 		} else {
@@ -117,9 +139,63 @@ func faults(w *rec.Writer, seed uint64) {
 			rn.Do(target, true)
 		}
 	}
+	// the Write command over a datastore whose transaction lost a race and was rolled back
+	// (ErrWriteConflictOnDelete / OnInsert, nothing applied), for all nine option combinations
+	pc := sg.Profile{Name: "conflict", Mode: 0, PBadItem: 15, PDupKey: 15, MaxItems: 4, KeyLimit: 12}
+	for od := 0; od < 3; od++ {
+		for om := 0; om < 3; om++ {
+			op := sg.GenWrite(r, pc, rn.Present(), statf(w))
+			op.Mode, op.OnDup, op.OnMiss = 0, od, om
+			op.Fault, op.Flav = 1, sg.FlavConflictDelete
+			if r.Chance(1, 3) {
+				op.Flav = sg.FlavConflictInsert
+			}
+			tick++
+			op.Tick = tick
+			rn.Do(op, false)
+			w.Stat(fmt.Sprintf("fault_flavour_%d", op.Flav), 1)
+		}
+	}
 	countOps(w, rn)
 	w.Stat("histories_fault", 1)
 	rn.Emit(w, "fault", seed)
+}
+
+// races: k concurrent Write requests on overlapping tuples of one fresh store per round; many
+// cheap rounds on the memory backend (with ballast tuples), fewer on sqlite.
+func races(w *rec.Writer, seed uint64, memRounds, sqlRounds int) {
+	r := rec.NewRand(seed)
+	mem, err := sg.NewMemory()
+	if err != nil {
+		panic(err)
+	}
+	defer mem.Close()
+	sq, err := sg.NewSqlite()
+	if err != nil {
+		panic(err)
+	}
+	defer sq.Close()
+	one := func(b *sg.Backend, ballast int) {
+		k := r.Range(2, 8)
+		init, reqs := sg.GenRace(r, k, statf(w))
+		o, err := sg.RunRace(b, ballast, init, reqs)
+		if err != nil {
+			w.PropFail("harness: race could not run: "+err.Error(), nil)
+			return
+		}
+		sg.EmitRace(w, b, ballast, init, reqs, o, seed)
+		w.Stat("races_"+b.Name, 1)
+		w.Stat(fmt.Sprintf("race_width_%d", k), 1)
+		for _, e := range o.Errs {
+			w.Stat(fmt.Sprintf("race_%s_err_class_%d", b.Name, e), 1)
+		}
+	}
+	for i := 0; i < memRounds; i++ {
+		one(mem, 300)
+	}
+	for i := 0; i < sqlRounds; i++ {
+		one(sq, 0)
+	}
 }
 
 func bulk(w *rec.Writer, seed uint64) {
@@ -155,6 +231,27 @@ func replay(w *rec.Writer, path string) {
 	sc := bufio.NewScanner(f)
 	sc.Buffer(make([]byte, 1<<20), 1<<28)
 	for sc.Scan() {
+		var rd sg.RaceDesc
+		if err := json.Unmarshal(sc.Bytes(), &rd); err == nil && rd.Kind == "race" {
+			// a race is not deterministic: run the same requests a number of times
+			var b *sg.Backend
+			var err error
+			if rd.Backend == "sqlite" {
+				b, err = sg.NewSqlite()
+			} else {
+				b, err = sg.NewMemory()
+			}
+			if err != nil {
+				panic(err)
+			}
+			for i := 0; i < 200; i++ {
+				if o, err := sg.RunRace(b, rd.Ballast, rd.Init, rd.Reqs); err == nil {
+					sg.EmitRace(w, b, rd.Ballast, rd.Init, rd.Reqs, o, rd.Seed)
+				}
+			}
+			b.Close()
+			continue
+		}
 		var h sg.History
 		if err := json.Unmarshal(sc.Bytes(), &h); err != nil || len(h.Ops) == 0 {
 			continue
@@ -183,6 +280,8 @@ func main() {
 		return
 	}
 	r := rec.NewRand(o.Seed)
+	// concurrent histories first (cheap): about 3 memory rounds and 0.4 sqlite rounds per case
+	races(w, r.Uint64(), 3*o.N, (2*o.N)/5)
 	for i := 0; i < o.N; i++ {
 		s := r.Uint64()
 		switch {
